@@ -304,6 +304,13 @@ func HProposalRoundTrip() {
 		vr.Assert("c11.proposal.same", vr.All(encr.DecodeTransform(q.EncryptionAlgorithm[0]) == k.EncrInfo,
 			integ.DecodeTransform(q.IntegrityAlgorithm[0]) == k.IntegInfo, prf.DecodeTransform(q.PseudorandomFunction[0]) == k.PrfInfo,
 			dh.DecodeTransform(q.DiffieHellmanGroup[0]) == k.DhInfo))
+		// the same object advertises what it holds *now*: another key size under the same transform id
+		k.EncrInfo = encr.StrToType(vEncrNames[(ei+1)%3])
+		p2, err := k.ToProposal()
+		vr.Assert("c11.proposal.again.noerr", err == nil && p2 != nil && len(p2.EncryptionAlgorithm) == 1)
+		if err == nil && p2 != nil && len(p2.EncryptionAlgorithm) == 1 {
+			vr.Assert("c11.proposal.again.same", encr.DecodeTransform(wire(p2).EncryptionAlgorithm[0]) == k.EncrInfo)
+		}
 		return
 	}
 	es, err := esn.StrToType(vEsnNames[pi%2])
